@@ -45,6 +45,10 @@ func c06case(c GCase, a *run.Acc, variant int) {
 	case r.Err == nil:
 		a.Count("successful parses (nothing to judge)", 1)
 		return
+	case r.LogTruncated:
+		// the oracle needs the complete attempt log; an explosively ambiguous case with more than 20000 attempts is not judged
+		a.Count("inconclusive:attempt log truncated", 1)
+		return
 	}
 	a.Count("failed parses judged", 1)
 	F := -1
